@@ -222,7 +222,7 @@ pub fn run(ctx: &Ctx) -> &'static str {
     ctx.explore(
         "states",
         "enhanced-mode selects over generated link-state histories (NAK ages and bursts, RTT values, bitrate vs CC target, connection age across 30 s, weak/loss-degraded/capped, warming, quality on/off, every previous index); independent score recomputation: idempotence, no self-oscillation, hysteresis, cap, arg-max validity, factor ranges; non-trivial = a select with >=2 scored links whose scores differ by < 25% or with a gate/cap engaged on the best raw-score link",
-        ctx.tier.pick(40_000, 1_500_000),
+        ctx.tier.pick(200_000, 3_000_000),
         || strategy(mo, Some(false)),
         |_| check,
     );
